@@ -498,3 +498,48 @@ impl Engine for C05Engine {
         }
     }
 }
+
+
+/// Fallback for C20 when the run-time engines do not compile against the current tree: the clause
+/// "an idle arena can be moved to another thread and used or dropped there" is also a compile-time
+/// fact. Returns the process exit code (1 = violation printed, 2 = nothing to report: still inconclusive).
+pub fn c20_thread_probe() -> i32 {
+    let Some(rl) = find_rlibs() else {
+        eprintln!("INCONCLUSIVE: bumpalo rlib not found");
+        return 2;
+    };
+    let programs: Vec<(&str, String)> = vec![
+        ("Bump moved to another thread, used and dropped there", format!("{PRELUDE}fn main() {{ let b = Bump::new(); b.alloc(1u8); let h = std::thread::spawn(move || {{ let x = b.alloc(5u32); *x += 1; drop(b); }}); h.join().unwrap(); }}")),
+        ("Bump<8> moved to another thread and back", format!("{PRELUDE}fn main() {{ let b: Bump<8> = Bump::with_min_align(); let b = std::thread::spawn(move || {{ b.alloc(1u8); b }}).join().unwrap(); b.alloc(2u8); }}")),
+        ("Bump<16> with capacity handed over through a channel", format!("{PRELUDE}fn main() {{ let (tx, rx) = std::sync::mpsc::channel(); let b = Bump::<16>::with_min_align_and_capacity(64); tx.send(b).unwrap(); std::thread::spawn(move || {{ let mut b = rx.recv().unwrap(); b.alloc(3u64); b.reset(); }}).join().unwrap(); }}")),
+        ("Bump<2> and Bump<4> are Send", format!("{PRELUDE}fn main() {{ is_send::<Bump<2>>(); is_send::<Bump<4>>(); }}")),
+    ];
+    let mut bad = vec![];
+    for (i, (name, text)) in programs.iter().enumerate() {
+        match compile(&rl, &format!("c20probe{i}"), text) {
+            Verdict::Accepted => {}
+            Verdict::Rejected(codes) => bad.push((name.to_string(), text.clone(), codes)),
+            Verdict::ToolError(m) => {
+                eprintln!("INCONCLUSIVE: {m}");
+                return 2;
+            }
+        }
+    }
+    if bad.is_empty() {
+        return 2;
+    }
+    let dir = format!("{}/replays", verif_root());
+    let _ = std::fs::create_dir_all(&dir);
+    let path = format!("{dir}/C20-thread-probe.json");
+    let body = json!({"property": "C20", "engine": "compile-probe", "failure": bad.iter().map(|b| format!("{}: rejected with {:?}", b.0, b.2)).collect::<Vec<_>>(), "programs": bad.iter().map(|b| b.1.clone()).collect::<Vec<_>>()});
+    let _ = std::fs::write(&path, serde_json::to_string_pretty(&body).unwrap());
+    let ev = json!({"property_id": "C20", "tier": "quick", "seed": seed_from_env(), "level": "exploration", "violations": bad.len(), "wall_s": 0.0,
+        "coverage": {"evaluations": programs.len(), "distinct_nontrivial": programs.len(), "rule": "fallback: the run-time engines for C20 do not compile against the current tree; the hand-over clause of C20 was decided by compiling the client programs that move an idle arena to another thread", "samples": programs.iter().map(|p| p.0).collect::<Vec<_>>()}});
+    let _ = std::fs::create_dir_all(format!("{}/evidence", verif_root()));
+    let _ = std::fs::write(format!("{}/evidence/C20.json", verif_root()), serde_json::to_string_pretty(&ev).unwrap());
+    for (name, _, codes) in bad.iter() {
+        println!("  the program [{name}] no longer compiles ({:?}): an idle arena cannot be moved to another thread", codes);
+    }
+    println!("VIOLATION property=C20 replay={path}");
+    1
+}
